@@ -2350,7 +2350,7 @@ impl<'a> Ctx<'a> {
                         kind: LoweringDiagnosticKind::UsingBreakInsteadOfReturn,
                         range: whole_range,
                     });
-                    return self.resolve_first_label(whole_range, PassedDeferErr::Ignore);
+                    return self.resolve_first_label(whole_range, passed_defer_err);
                 }
             }
         } else if passed_defer {
